@@ -104,6 +104,17 @@ public:
     ob::DiscreteMotionValidator dmv_;
 };
 
+// allocation-counting spaces (C03): live = allocState calls - freeState calls
+static std::atomic<long> g_live{0}, g_allocs{0}; static std::atomic<bool> g_negative{false};
+template <class Base> class Counting : public Base
+{
+public:
+    using Base::Base;
+    ob::State *allocState() const override { ++g_live; ++g_allocs; return Base::allocState(); }
+    void freeState(ob::State *s) const override { if (--g_live < 0) g_negative = true; Base::freeState(s); }
+};
+static bool g_counting = false;
+
 struct World
 {
     ob::StateSpacePtr space; ob::SpaceInformationPtr si; std::shared_ptr<EnvChecker> chk; std::shared_ptr<LoggingMotionValidator> mv;
@@ -112,6 +123,9 @@ struct World
 static ob::StateSpacePtr make_space(const std::string &n)
 {
     ob::RealVectorBounds b2(2); b2.setLow(0); b2.setHigh(1);
+    if (g_counting && n == "R2") { auto s = std::make_shared<Counting<ob::RealVectorStateSpace>>(2); s->setBounds(b2); return s; }
+    if (g_counting && n == "R3") { auto s = std::make_shared<Counting<ob::RealVectorStateSpace>>(3); s->setBounds(0, 1); return s; }
+    if (g_counting && n == "SE2") { auto s = std::make_shared<Counting<ob::SE2StateSpace>>(); s->setBounds(b2); return s; }
     if (n == "R2") { auto s = std::make_shared<ob::RealVectorStateSpace>(2); s->setBounds(b2); return s; }
     if (n == "R3") { auto s = std::make_shared<ob::RealVectorStateSpace>(3); s->setBounds(0, 1); return s; }
     if (n == "R6") { auto s = std::make_shared<ob::RealVectorStateSpace>(6); s->setBounds(0, 1); return s; }
